@@ -149,9 +149,9 @@ ADDENDA = {
     "C03": " Also labels as numpy scalars / 0-d tensors, numpy seeds, duplicate class names, wrappers above two other index-changing layers, arguments must not be mutated.",
     "C04": " Also positional construction, a second pass and two live iterators over one scheduler object, two-rank DistributedSampler mains.",
     "C05": " Also side samplers yielding numpy scalars / tensor views or changing length between passes, positional configs.",
-    "C06": " Facet far-checkpoints: the three equivalent checkpoint forms must agree (stream and announced epochs) for checkpoints beyond 2**31 / 2**53 updates; drop_last as int / numpy bool.",
+    "C06": " Facet far-checkpoints: the three equivalent checkpoint forms must agree (stream and announced epochs) for checkpoints beyond 2**31 / 2**53 updates; drop_last as int / numpy bool. Facet accepted-geometries: model-free relation (resumed run == the implementation's own uninterrupted run from the epoch announcement on) for whatever geometry the constructor accepts, incl. oversized drop_last_batch_size.",
     "C07": " Also differing strength histories, the second instance as a deepcopy / pickle copy, members appended after construction, plain callables inside (wrapped) compositions, factory descriptions (kind-dicts / lists), PIL inputs.",
-    "C08": " Also positional construction, numpy seeds, one transform shared by X and Y wrappers, reuse of the caller's view configs, pickle / deepcopy of the dataset mid-history.",
+    "C08": " Also positional construction, numpy seeds, one transform shared by X and Y wrappers, reuse of the caller's view configs, pickle / deepcopy of the dataset mid-history, factory descriptions, a refused stack must stay refused. Facet fresh-interpreters: samples recomputed in newly started python processes with other hash seeds must be bit-identical.",
     "C09": " Also collators supplied through an overridden property, a user transform deriving state in the per-worker hook, the scheduler's own loader with a prefetch factor, stacks sharing one root, hook run once in the main process.",
     "C10": " Also label dtypes other than float32, a user subclass overriding the partner hook.",
     "C11": " Also labels as 0-d tensors / int64 one-hot / float soft vectors, torch default dtype float64, class count re-configured mid-history.",
